@@ -161,12 +161,20 @@ def _same_ref(a, b):
     return R.diff({k: a["ref_out"][k] for k in keys}, {k: b["ref_out"][k] for k in keys}) == [] and set(a["ref_out"]) <= set(b["ref_out"])
 
 
+def _only_cancellation_fallout(res):
+    lines = [ln for ln in res["sf_log"].splitlines() if ln.strip() and ln.strip() != "..."]
+    return res["kind"] == "sf_fail" and all(any(m in ln for m in CANCEL_NOISE) for ln in lines)
+
+
 def _extra_condition(mech, case, res, rerun):
     """value-level part of a predicate, on top of the neutralising rewrite."""
     if mech == "C29/unconnected-step-cancelled":
         # StreamFlow fails although nothing failed: its log holds nothing but the cancellation fallout
-        lines = [ln for ln in res["sf_log"].splitlines() if ln.strip() and ln.strip() != "..."]
-        return res["kind"] == "sf_fail" and all(any(m in ln for m in CANCEL_NOISE) for ln in lines)
+        return _only_cancellation_fallout(res)
+    if _only_cancellation_fallout(res):
+        # a run that "failed" with nothing but cancellations in its log is timing dependent: a rewrite of another
+        # construct that happens to make it pass explains nothing
+        return False
     if mech == "C29/recoverable-flag-on-persisted-inner-token":
         first = next((ln for ln in res["sf_log"].splitlines() if ln.strip()), "")
         return (res["kind"] == "sf_fail" and "The `recoverable` property can't be changed after the `Token` has been persisted" in first
